@@ -7,6 +7,9 @@ F-LLTSA-CENTRE (LLTSA additionally did `lhs.rankUpdate(sum, -1/N)`), kept verbat
 namespace `TapkeeVerif.LinearGraph.PreFix`, together with everything that was proved of them.  These are statements about
 what the code computed before the fixes, not about the tree (`Model/LinearGraph.lean` models the tree); they document
 why the needed statement `C10.SolverSeesFull` was false then and why the rotation metamorphism failed.
+
+Second namespace `TapkeeVerif.LinearGraph.PreShift`: `construct_lltsa_eigenproblem` as it read between those fixes and
+the fix commit F-LLTSA-SHIFT (`lhs = 2 X W Xᵀ` of the UNCENTRED features): it depended on the origin of the feature space.
 -/
 namespace TapkeeVerif.LinearGraph.PreFix
 open TapkeeVerif TapkeeVerif.LinearGraph Matrix
@@ -226,3 +229,50 @@ theorem npe_view_not_equivariant_witness :
   norm_num [rot345] at e
 
 end TapkeeVerif.LinearGraph.PreFix
+
+
+namespace TapkeeVerif.LinearGraph.PreShift
+open TapkeeVerif TapkeeVerif.LinearGraph
+
+/-! ### the historical definition (body verbatim from `Model/LinearGraph.lean` before F-LLTSA-SHIFT) -/
+
+section
+variable {K : Type} [Add K] [Sub K] [Mul K] [Div K] [Neg K] [Zero K] [One K] [NatCast K]
+variable {N D : Nat}
+
+/-- `construct_lltsa_eigenproblem` after F-LIN-TRI / F-LLTSA-CENTRE and before F-LLTSA-SHIFT: `rhs` additionally gets
+    `rankUpdate(sum, -1/N)` (centring); `lhs` does not -/
+def lltsaProblemD (W : Mat N N K) (F : Mat N D K) : DMat D D K × DMat D D K :=
+  let s := DVec.ofFn (featureSum F)
+  let c : K := (-1) / (N : K)
+  (mirrorUpperD (weightSumD W F), mirrorUpperD (rankUpdate1D (sampleSumD F (fun _ => 1)) s.get c))
+
+def lltsaProblem (W : Mat N N K) (F : Mat N D K) : Mat D D K × Mat D D K :=
+  ((lltsaProblemD W F).1.get, (lltsaProblemD W F).2.get)
+
+end
+
+variable {K : Type} [Field K] {N D : Nat}
+
+/-- pre-shift LLTSA returned `(2 · Fᵀ W F, Fᵀ H F)`: the left-hand side used the UNCENTRED features -/
+theorem lltsa_returns {W : Mat N N K} (hW : ∀ r c, W r c = W c r) (F : Mat N D K) :
+    lltsaProblem W F = (fun i j => 2 * fullForm W F i j, fullForm centering F) := by
+  show ((mirrorUpperD (weightSumD W F)).get,
+    (mirrorUpperD (rankUpdate1D (sampleSumD F fun _ => 1) (DVec.ofFn (featureSum F)).get ((-1) / (N : K)))).get) = _
+  rw [mirror_weightSum hW, mirror_centredSampleSum]
+
+/-- witness of the translation dependence: the two samples `0`, `1` on the line, translated by `1` -/
+def shiftF : Mat 2 1 ℚ := fun r _ => (r.1 : ℚ)
+def shiftT : Vec 1 ℚ := fun _ => 1
+
+/-- with `W = 1` (row sums `1 ≠ 0`) the pre-shift `lhs` was `2 · (0² + 1²) = 2` before and `2 · (1² + 2²) = 10` after
+    the translation -/
+theorem lltsa_not_translation_invariant_witness :
+    (lltsaProblem refuteW (fun r j => shiftF r j + shiftT j)).1 ≠ (lltsaProblem refuteW shiftF).1 := by
+  intro h
+  have e := congrFun (congrFun h 0) 0
+  rw [lltsa_returns refuteW_symm, lltsa_returns refuteW_symm] at e
+  simp only [fullForm_apply] at e
+  simp [Fin.sum_univ_two, refuteW, shiftF, shiftT] at e
+
+end TapkeeVerif.LinearGraph.PreShift
